@@ -267,7 +267,63 @@ func emitNodeAssemblerHelper_mapoid_mapAssemblerMethods(w io.Writer, adjCfg *Adj
 			ma.state = maState_midKey
 			ma.ka.m = &ma.cm
 			ma.ka.w = &ma.w.t[len(ma.w.t)-1].k
-			return &ma.ka
+			return (*_{{ .Type | TypeSymbol }}__{{ if .IsRepr }}Repr{{end}}KeyAssembler)(ma)
+		}
+	`, w, adjCfg, data)
+	// The key assembler handed out is a thin wrapper around the key type's own assembler:
+	//  the latter cannot see the rest of the map, and the contract is that the assembler yielded by AssembleKey reports a repeated key.
+	//  (Keys assembled recursively -- BeginMap on a struct key -- complete out of our sight; AssembleValue catches those.)
+	doTemplate(`
+		type _{{ .Type | TypeSymbol }}__{{ if .IsRepr }}Repr{{end}}KeyAssembler _{{ .Type | TypeSymbol }}__{{ if .IsRepr }}Repr{{end}}Assembler
+
+		func (ka *_{{ .Type | TypeSymbol }}__{{ if .IsRepr }}Repr{{end}}KeyAssembler) checkRepeat(err error) error {
+			if err != nil || ka.cm != schema.Maybe_Value {
+				return err
+			}
+			k := ka.w.t[len(ka.w.t)-1].k
+			if _, exists := ka.w.m[k]; !exists {
+				return nil
+			}
+			// undo the row, so that the assembler continues as if the rejected key had not been supplied.
+			ka.w.t = ka.w.t[:len(ka.w.t)-1]
+			ka.ka.w = nil
+			ka.ka.reset()
+			ka.cm = schema.Maybe_Absent
+			ka.state = maState_initial
+			return datamodel.ErrRepeatedMapKey{Key: &k}
+		}
+		func (ka *_{{ .Type | TypeSymbol }}__{{ if .IsRepr }}Repr{{end}}KeyAssembler) BeginMap(sizeHint int64) (datamodel.MapAssembler, error) {
+			return ka.ka.BeginMap(sizeHint)
+		}
+		func (ka *_{{ .Type | TypeSymbol }}__{{ if .IsRepr }}Repr{{end}}KeyAssembler) BeginList(sizeHint int64) (datamodel.ListAssembler, error) {
+			return ka.ka.BeginList(sizeHint)
+		}
+		func (ka *_{{ .Type | TypeSymbol }}__{{ if .IsRepr }}Repr{{end}}KeyAssembler) AssignNull() error {
+			return ka.checkRepeat(ka.ka.AssignNull())
+		}
+		func (ka *_{{ .Type | TypeSymbol }}__{{ if .IsRepr }}Repr{{end}}KeyAssembler) AssignBool(v bool) error {
+			return ka.checkRepeat(ka.ka.AssignBool(v))
+		}
+		func (ka *_{{ .Type | TypeSymbol }}__{{ if .IsRepr }}Repr{{end}}KeyAssembler) AssignInt(v int64) error {
+			return ka.checkRepeat(ka.ka.AssignInt(v))
+		}
+		func (ka *_{{ .Type | TypeSymbol }}__{{ if .IsRepr }}Repr{{end}}KeyAssembler) AssignFloat(v float64) error {
+			return ka.checkRepeat(ka.ka.AssignFloat(v))
+		}
+		func (ka *_{{ .Type | TypeSymbol }}__{{ if .IsRepr }}Repr{{end}}KeyAssembler) AssignString(v string) error {
+			return ka.checkRepeat(ka.ka.AssignString(v))
+		}
+		func (ka *_{{ .Type | TypeSymbol }}__{{ if .IsRepr }}Repr{{end}}KeyAssembler) AssignBytes(v []byte) error {
+			return ka.checkRepeat(ka.ka.AssignBytes(v))
+		}
+		func (ka *_{{ .Type | TypeSymbol }}__{{ if .IsRepr }}Repr{{end}}KeyAssembler) AssignLink(v datamodel.Link) error {
+			return ka.checkRepeat(ka.ka.AssignLink(v))
+		}
+		func (ka *_{{ .Type | TypeSymbol }}__{{ if .IsRepr }}Repr{{end}}KeyAssembler) AssignNode(v datamodel.Node) error {
+			return ka.checkRepeat(ka.ka.AssignNode(v))
+		}
+		func (ka *_{{ .Type | TypeSymbol }}__{{ if .IsRepr }}Repr{{end}}KeyAssembler) Prototype() datamodel.NodePrototype {
+			return ka.ka.Prototype()
 		}
 	`, w, adjCfg, data)
 	doTemplate(`
